@@ -379,18 +379,23 @@ def dataset_job(job):
                 ds = cd.CenteredInstanceDataset(crop_hw=(cr, cr), confmap_head_config=head, **kw)
             fill = rec.fill
             out = []
-            for idx in range(len(ds)):
-                torch.manual_seed(seed * 1009 + idx)
-                rec.seed = seed * 1009 + idx
-                rec.cur = []
-                sample = ds[idx]
-                out.append((fill[idx] + rec.cur, sample))
+            # every index is read twice (a second epoch): registration must hold on EVERY read, also when an
+            # earlier read of the same index went through the in-memory cache (seeded change C04_r2)
+            for epoch in (0, 1):
+                for idx in range(len(ds)):
+                    torch.manual_seed(seed * 1009 + idx)
+                    rec.seed = seed * 1009 + idx
+                    rec.cur = []
+                    sample = ds[idx]
+                    out.append((fill[idx] + rec.cur, sample))
         return ds, out
 
     ds, rgb = build(False)
     gray = build(True)[1] if with_gray else None
     max_inst = ds.max_instances
-    for idx, (raw, sample) in enumerate(rgb):
+    n_ds_samples = len(ds)
+    for pos, (raw, sample) in enumerate(rgb):
+        idx = pos % n_ds_samples
         if ds_name == "CenteredInstanceDataset":
             lf_idx, inst_idx = ds.instance_idx_list[idx]
             insts = [frames_spec[lf_idx]["instances"][inst_idx]]
@@ -412,8 +417,8 @@ def dataset_job(job):
         ev = _assemble(raw, sample, ds_name, (h, w), thresh, True)
         gev = []
         if gray is not None:
-            gev = [_gray_event(e) for e in _assemble(gray[idx][0], gray[idx][1], ds_name, (h, w), thresh, False)]
-        traces.append(dict(id=base_id + idx, kind="dataset", seed=seed, job=[ds_name, seed, with_gray], index=idx,
+            gev = [_gray_event(e) for e in _assemble(gray[pos][0], gray[pos][1], ds_name, (h, w), thresh, False)]
+        traces.append(dict(id=base_id + pos, kind="dataset", seed=seed, job=[ds_name, seed, with_gray], index=pos, read=pos // n_ds_samples + 1,
                            geo=geo if aug[1] else None, cfg=cfg, ev=ev, gev=gev))
     return traces
 
